@@ -349,10 +349,30 @@ func TabCodec(p *load.Program) *report.RuleResult {
 			missing(r, w.fn, "function not found")
 			continue
 		}
-		lens, apps := codecUses(fn, fams)
+		// the function and the steps extracted from it into helpers: unexported functions of the
+		// writer files that are neither codec functions nor rows of this table themselves
+		rowFn := map[*ssa.Function]bool{}
+		for _, w2 := range table {
+			if f2 := p.Func(nil, w2.fn); f2 != nil {
+				rowFn[f2] = true
+			}
+		}
+		isCodecFn := func(f *ssa.Function) bool {
+			for _, pair := range fams {
+				if f == pair[0] || f == pair[1] {
+					return true
+				}
+			}
+			return false
+		}
 		used := map[string]bool{}
-		for _, u := range append(lens, apps...) {
-			used[u.fam] = true
+		for _, g := range helperClosure(p, fn, func(f *ssa.Function) bool {
+			return !rowFn[f] && !isCodecFn(f) && ScopeWriter.has(p, f) && (f.Object() == nil || !f.Object().Exported())
+		}, 2) {
+			lens, apps := codecUses(g, fams)
+			for _, u := range append(lens, apps...) {
+				used[u.fam] = true
+			}
 		}
 		name := p.FuncName(fn)
 		for _, m := range w.must {
@@ -395,13 +415,28 @@ func TabCodec(p *load.Program) *report.RuleResult {
 			continue
 		}
 		called := map[string]bool{}
-		for _, b := range fn.Blocks {
-			for _, in := range b.Instrs {
-				if c, ok := in.(ssa.CallInstruction); ok {
-					if f := c.Common().StaticCallee(); f != nil {
-						called[f.Name()] = true
+		rrow := map[string]bool{}
+		for _, w2 := range rtable {
+			rrow[w2.fn[strings.Index(w2.fn, ".")+1:]] = true
+		}
+		prim := map[string]bool{"readVarUint": true, "readVarUintLen": true, "readVarInt": true, "readVarIntLen": true, "readBigInt": true, "readN": true, "skipVarUint": true, "skipVarUintLen": true}
+		for _, g := range helperClosure(p, fn, func(f *ssa.Function) bool {
+			return recvTypeName(f) == "bitstream" && !prim[f.Name()] && !rrow[f.Name()] && (f.Object() == nil || !f.Object().Exported())
+		}, 2) {
+			for _, b := range g.Blocks {
+				for _, in := range b.Instrs {
+					if c, ok := in.(ssa.CallInstruction); ok {
+						if f := c.Common().StaticCallee(); f != nil {
+							called[f.Name()] = true
+						}
 					}
 				}
+			}
+		}
+		// the one-result and the with-length spelling of a primitive decode the same field
+		for _, pair := range [][2]string{{"readVarUint", "readVarUintLen"}, {"readVarInt", "readVarIntLen"}} {
+			if called[pair[0]] || called[pair[1]] {
+				called[pair[0]], called[pair[1]] = true, true
 			}
 		}
 		name := p.FuncName(fn)
